@@ -19,9 +19,11 @@ PROP = dict(
          "or the Agc case required a gain below max_gain and was checked for settling / received a non-silent letter",
     bounds=dict(
         quick="static law: T{-50,-30,-10,-3,0} x R{1,2,5,50} x W{0,1,10,20} x fs{8k,192k} x both signs, levels every 0.5 dB in [-100,20] + every 0.01 dB "
-              "within 0.1 dB of T-W/2, T, T+W/2, an exact 0.0 interleaved after every 5th level (out 0, gain 1); gain.range: the same box x attack,release in {0,1e-3,0.2,4}^2 x 7 letters of 10^4 samples; "
+              "within 0.1 dB of T-W/2, T, T+W/2, an exact 0.0 interleaved after every 5th level (out 0, gain 1); static.exact: {compressor R1, R5, limiter} x T x W x release{0,0.2}, every amplitude among the 200 doubles around db2mag(E), "
+              "E in {T, T-W/2, T+W/2}, whose library level mag2db(a+eps) equals E bit-exactly, fed as [a,-a,a,a/2,a] (hit counts per E in path_histogram; none exists for T=-50); "
+              "gain.range: the same box x attack,release in {0,1e-3,0.2,4}^2 x 7 letters of 10^4 samples; "
               "smooth.step: T{-30,-10} x R{2,5,50} x W{0,10} x fs{8k,192k} x attack,release in {0,1e-3,0.01,0.2,4}^2 (no 4 s at 192 kHz), "
-              "4 step phases each; smooth.silence: T{-30,-10} x R{2,5,50}/limiter x W{0,10} x fs{8k,192k} x attack{0,0.01} x release{1e-3,0.01,0.2} x "
+              "4 step phases each, plus attack = release = f/fs for fractional f = fs*t in {1.5,1.92,2.5,3.3,7.7,10.5} (gate.step likewise, hold{0,1e-3}); smooth.silence: T{-30,-10} x R{2,5,50}/limiter x W{0,10} x fs{8k,192k} x attack{0,0.01} x release{1e-3,0.01,0.2} x "
               "k{1,5,50} release times of exact zeros x {1 call, 3 calls}; gate.silence: thr{-40,0} x fs{8k,192k} x attack{1e-3,0.05} x release{0,1e-3} x hold{0,1e-3,0.05} x k{1,5,50} x {1,3 calls}; gate: thr{-140,-40,0} x fs{8k,192k} x attack,release,hold in {0,1e-3,0.05}^3, step history + 7 letters of 10^4; "
               "Agc: target{0.01,1,100} x absolute input amplitude -100..+20 dBFS (1e-5..10) step 10 dB x avg{1,10,100,1000} x max_gain{20,60,140} (140 dB keeps the required "
               "gain below max_gain for every target x amplitude pair) x 3 constant-envelope letters (real +A, real +-A, "
@@ -38,6 +40,9 @@ PROP = dict(
         "digital silence: exact 0.0 input is below every threshold, so the static target is 0 dB (gate: closed) from the first zero sample on; after "
         "fs*t (+1 sample +1 %) samples of zeros >= 0.8 of the step (the 10->90 % fraction; a one-pole covers 0.889) must be released, n90-n10 = fs*t as in "
         "smooth.step, and under zero attack/release a zero sample reports gain 1 (|gain-1| <= 1e-12) and out 0",
+        "time constants are additionally measured from the per-sample decay ratio (g[k+1]-G)/(g[k]-G) toward the constant static target G (dB gain for "
+        "compressor/limiter, linear gain for the gate): the median ratio w over the samples farther than 1e-6 of the step from G must imply "
+        "t_est = -ln 9/(fs ln w) within 2 % of the configured time (t = 0: ratio 0); the spread of the ratios is recorded, not judged",
         "10%->90% time is measured in samples on the dB gain (compressor/limiter) or linear gain (gate) and must be fs*t +- (1 sample + 1 %)",
         "NoiseGate hold: the gain is frozen for floor(hold*fs) samples after the level falls below the threshold, measured on a gate whose hold "
         "counter was reset by a preceding opening phase (weaker reading; interrupted holds are not judged)",
